@@ -73,6 +73,14 @@ def check_roundtrip(case, rec):
         rec.violation('roundtrip_us', 'seconds field %d, expected %d' % (s2, sec))
 
 
+@st.composite
+def far_case(draw):
+    """whole range of seconds representable as datetime64[us], microsecond part biased to the ends of the second"""
+    sec = draw(st.one_of(st.integers(-6 * 10 ** 10, 2.5 * 10 ** 11 // 1), st.integers(-9 * 10 ** 12, 9 * 10 ** 12)))
+    us = draw(st.one_of(st.sampled_from([0, 1, 2, 999999, 999998, 500000]), st.integers(0, 999999)))
+    return {'sec': int(sec), 'us': us}
+
+
 def check_file_block(case, rec):
     """a block of consecutive microsecond values through TdmsWriter -> TdmsFile as channel data and as properties"""
     from nptdms import TdmsFile, TdmsWriter, ChannelObject, RootObject
@@ -343,6 +351,7 @@ def jobs(tier):
                     note='every 16th microsecond value at a negative (pre-1904) seconds value'),
                 Job('far_dates_microseconds', 'enum', enum_us([18808761296, -28502841677, 150000000000], stride=64),
                     check=check_roundtrip, note='every 64th microsecond value in the years 2500, 1000 and 6657'),
+                Job('any_second_boundary_microseconds', 'hyp', far_case, n=20000, check=check_roundtrip),
                 Job('file_blocks', 'enum', _blocks([3524551547], 4000, 2), check=check_file_block),
                 Job('conversions', 'hyp', conv_case, n=30000, check=check_conversion),
                 Job('raw_defragment', 'hyp', raw_case, n=1500, check=check_raw),
@@ -351,6 +360,7 @@ def jobs(tier):
                 check=check_roundtrip, note='every 2nd microsecond value in the years 2500, 1000 and 6657'),
             Job('all_microseconds', 'enum', enum_us([3524551547, 0, -1, -86400 * 365 * 100 - 7]), exhaustive=True,
                 check=check_roundtrip, note='all 10^6 sub-second microsecond values at 4 seconds values incl. pre-1904'),
+            Job('any_second_boundary_microseconds', 'hyp', far_case, n=400000, check=check_roundtrip),
             Job('file_blocks', 'enum', _blocks([3524551547, -12345], 10000, 10 ** 6), exhaustive=True,
                 check=check_file_block, note='all 10^6 microsecond values through TdmsWriter/TdmsFile as data'),
             Job('conversions', 'hyp', conv_case, n=600000, check=check_conversion),
